@@ -7,7 +7,7 @@
 //   (c) strong clause: a harness-built block holding ALL pool txs (clusters whole, topological) passes TestBlockValidity on the tip.
 // CTxMemPool::check() (ratio 1) runs as an additional monitor.
 #include <engine/verif.h>
-#include <kits/mempoolsim.h>
+#include <kits/mempoolhist.h>
 
 #include <hash.h>
 
@@ -17,35 +17,15 @@ using namespace verif;
 
 namespace {
 
-bool TxIsTimeSensitive(const CTransaction& tx)
-{
-    bool nonfinal_seq = false, bip68 = false;
-    for (const auto& in : tx.vin) {
-        if (in.nSequence != 0xffffffffU) nonfinal_seq = true;
-        if (tx.version >= 2 && !(in.nSequence & (1U << 31)) && (in.nSequence & 0xffff) != 0) bip68 = true;
-    }
-    return (tx.nLockTime != 0 && nonfinal_seq) || bip68;
-}
-
-struct Hist {
+struct Oracle {
     MempoolSim& ms;
     Stats& st;
     int checks{0};
-    bool reorg_with_sensitive{false};
-    int reorgs{0}, maxdepth{0};
-    size_t max_pool{0};
-    uint256 last_block_check_key; //!< (tip, pool txids, fees) at the last strong-clause check: unchanged state is not re-validated
-
-    bool PoolHasSensitive(const PoolSnap& snap)
-    {
-        for (const auto& [id, e] : snap.entries) if (e.spends_coinbase || TxIsTimeSensitive(*e.tx)) return true;
-        return false;
-    }
+    uint256 last_block_check_key; //!< (tip, pool wtxids, fees) at the last strong-clause check: an unchanged state is not re-validated
 
     void CheckAll(const char* where)
     {
-        const PoolSnap& snap = ms.Sync();
-        max_pool = std::max(max_pool, snap.entries.size());
+        const PoolSnap& snap = ms.LastSnap(); // the driver has just Sync()ed
         st.steps++;
         checks++;
         const PoolIssue is = CheckSnapshot(snap, ms.ChainUtxo());
@@ -74,214 +54,28 @@ struct Hist {
             VCHECK(bs.IsValid(), "c22.whole-pool-block", where, "block holding", b.vtx.size() - 1, "pool txs on the tip fails TestBlockValidity:", StateStr(bs), "tip height", snap.tip_height);
         }
     }
-
-    void NoteReorg(int depth, bool sensitive_before)
-    {
-        reorgs++;
-        maxdepth = std::max(maxdepth, depth);
-        st.cls("reorg");
-        if (depth >= 2) st.cls("reorg-depth>=2");
-        if (sensitive_before) { reorg_with_sensitive = true; st.cls("reorg-with-sensitive-entry"); }
-        st.mix(uint64_t(200 + depth));
-    }
 };
-
-uint64_t ReasonHash(const std::string& r)
-{
-    uint64_t h = 1469598103934665603ULL;
-    for (unsigned char c : r) { h ^= c; h *= 1099511628211ULL; }
-    return h;
-}
 
 } // namespace
 
 VERIF_TARGET(c22_mempool_history, nullptr, 140, 2200,
-             "histories (6-48 ops) on a regtest node (110-block base + funding block; cluster-count limit 2..64, optional 1 MB -maxmempool, 1 h expiry): submit generated "
+             "histories (6-48 ops, kits/mempoolhist) on a regtest node (110-block base + funding block; cluster-count limit 2..64, optional 1 MB -maxmempool, 1 h expiry): submit generated "
              "transactions/packages (plain, chains, merges, RBF conflicts at the fee threshold, TRUC parent/child/sibling, ephemeral-dust and CPFP packages, nLockTime and BIP68 at "
              "their boundary, coinbase spends at the maturity boundary, oversized, junk, re-submissions), mine a block from a pool subset plus conflicting non-pool txs, reorg by "
              "InvalidateBlock depth 1-3 or by a competing longer branch, reconsider, mock-time jumps + Expire, PrioritiseTransaction, TrimToSize; after every op the pool is "
              "re-derived independently and a block of ALL pool txs must pass TestBlockValidity. non-trivial = a reorg happened while the pool (or the disconnected blocks) held a "
              "time-locked or coinbase-spending transaction; distinct = op kinds, generated kinds, accept/reject reasons, reorg depths")
 {
-    MempoolSimOpts o;
-    static const char* const kCount[] = {"-limitclustercount=64", "-limitclustercount=2", "-limitclustercount=3", "-limitclustercount=5", "-limitclustercount=9", "-limitclustercount=24"};
-    const unsigned cfg = s.range<unsigned>(0, 5);
-    o.extra_args.push_back(kCount[cfg]);
-    const unsigned cfg2 = s.range<unsigned>(0, 3);
-    if (cfg2 == 1) { o.extra_args.push_back("-maxmempool=1"); o.extra_args.push_back("-limitclustersize=25"); st.cls("cfg-maxmempool-1MB"); }
-    if (cfg2 == 2) { o.extra_args.push_back("-mempoolexpiry=1"); st.cls("cfg-expiry-1h"); }
-    if (cfg2 == 3) { o.extra_args.push_back("-limitclustersize=12"); }
+    MempoolSimOpts o = PickHistoryConfig(s, st);
     MempoolSim ms(o);
-    Hist h{ms, st};
-    st.mix(uint64_t(cfg * 4 + cfg2));
-    Note(st, "cfg ", kCount[cfg], " cfg2=", cfg2);
-    // a few blocks above the funding block so that reorgs of depth 1-3 are possible from the first op on
-    for (int i = 0; i < 3; ++i) ms.MineTxs({});
-    h.CheckAll("start");
-
-    const unsigned nops = s.range<unsigned>(6, 48);
-    unsigned accepted = 0, submitted = 0;
-    auto submit = [&](const GenTx& g) {
-        submitted++;
-        st.cls(std::string("gen-") + GenKindName(g.kind));
-        st.mix(uint64_t(10 + unsigned(g.kind)));
-        if (!g.package.empty()) {
-            auto r = ms.SubmitPackage(g.package);
-            unsigned ok = 0;
-            for (const auto& t : g.package) if (ms.pool().exists(t->GetHash())) ok++;
-            if (ok == g.package.size()) { accepted++; st.cls("package-accepted"); }
-            st.mix(uint64_t(ok));
-            st.mix(ReasonHash(r.m_state.GetRejectReason()));
-            Note(st, "pkg ", g.note, " -> ", PkgStateStr(r));
-        } else {
-            auto r = ms.Submit(g.tx);
-            const bool ok = r.m_result_type == MempoolAcceptResult::ResultType::VALID;
-            if (ok) {
-                accepted++;
-                st.cls(std::string("accepted-") + GenKindName(g.kind));
-                if (!r.m_replaced_transactions.empty()) st.cls("replacement-happened");
-            }
-            st.mix(ReasonHash(r.m_state.GetRejectReason()));
-            Note(st, "tx ", g.note, " fee=", g.fee, " -> ", TxStateStr(r));
-        }
-    };
-    auto sensitive_in_tip_blocks = [&](int depth) {
-        std::set<Txid> coinbases;
-        for (const auto& [bh, rb] : ms.sim().ledger.blocks) if (!rb.vtx.empty()) coinbases.insert(rb.vtx[0]->GetHash());
-        uint256 cur = ms.TipHash();
-        for (int i = 0; i < depth; ++i) {
-            const RefBlock& b = ms.sim().ledger.At(cur);
-            for (size_t k = 1; k < b.vtx.size(); ++k) {
-                if (TxIsTimeSensitive(*b.vtx[k])) return true;
-                for (const auto& in : b.vtx[k]->vin) if (coinbases.count(in.prevout.hash)) return true;
-            }
-            if (b.height == 0) break;
-            cur = b.prev;
-        }
-        return false;
-    };
-    // number of blocks of the old active chain that are no longer active
-    auto disconnected = [&](const uint256& old_tip) {
-        int d = 0;
-        uint256 cur = old_tip;
-        const uint256 tip = ms.TipHash();
-        while (!ms.sim().ledger.IsAncestor(cur, tip)) { cur = ms.sim().ledger.At(cur).prev; d++; }
-        return d;
-    };
-    auto do_invalidate = [&](int depth) {
-        const bool sens = h.PoolHasSensitive(ms.LastSnap()) || sensitive_in_tip_blocks(depth);
-        const int before = ms.TipHeight();
-        const uint256 old_tip = ms.TipHash();
-        const uint256 inv = ms.InvalidateTip(depth);
-        if (inv.IsNull()) return;
-        const int d = disconnected(old_tip);
-        Note(st, "invalidate depth=", depth, " height ", before, "->", ms.TipHeight());
-        st.cls("invalidate");
-        if (d > 0) h.NoteReorg(d, sens);
-    };
-
-    for (unsigned op = 0; op < nops && !s.exhausted(); ++op) {
-        const unsigned kind = s.range<unsigned>(0, 19);
-        st.mix(uint64_t(kind));
-        if (kind <= 8) {
-            submit(ms.Gen(s));
-        } else if (kind == 9 || kind == 10) {
-            // boundary entry, then take the chain back under it: the entry must leave the pool if it is no longer valid for the next block
-            static const GenKind kinds[] = {GenKind::COINBASE_SPEND, GenKind::LOCKTIME, GenKind::BIP68, GenKind::CHAIN};
-            GenTx g = ms.GenOfKind(s, kinds[s.index(4)]);
-            submit(g);
-            h.CheckAll("after-boundary-submit");
-            if (s.chance(64)) { auto m = ms.MineFromPool({}, {}, 0); Note(st, "empty block"); h.CheckAll("after-empty-block"); (void)m; }
-            do_invalidate(s.range<int>(1, 3));
-            st.cls("boundary-then-reorg");
-        } else if (kind == 11 || kind == 12) {
-            // mine a block from a subset of the pool (+ancestors) and non-pool transactions, some conflicting with pool entries
-            const PoolSnap& snap = ms.LastSnap();
-            std::set<Txid> subset;
-            const unsigned mode = s.range<unsigned>(0, 3);
-            for (const auto& [id, e] : snap.entries) {
-                if (mode == 0 || (mode == 1 && s.boolean()) || (mode == 2 && s.chance(64))) subset.insert(id);
-            }
-            std::vector<CTransactionRef> extra;
-            const unsigned nextra = s.range<unsigned>(0, 3);
-            for (unsigned i = 0; i < nextra; ++i) extra.push_back(ms.GenBlockOnlyTx(s, /*conflict_with_pool=*/s.chance(160)));
-            const int64_t dt = s.pick<int64_t>({0, 0, 1, 600, 3000});
-            auto m = ms.MineFromPool(subset, extra, dt);
-            VCHECK(m.delivery.processed && m.became_tip, "c22.harness-block-rejected", "model-valid block was not accepted:", m.delivery.verdict ? StateStr(*m.delivery.verdict) : "no verdict",
-                   "txs", m.block->vtx.size(), "processed", m.delivery.processed, "new", m.delivery.new_block, "block height", ms.sim().ledger.At(m.block->GetHash()).height,
-                   "tip height", ms.TipHeight(), "block time", m.block->nTime, "now", ms.Now());
-            st.cls("mined-block");
-            if (nextra && !snap.entries.empty()) st.cls("mined-with-nonpool-txs");
-            st.mix(uint64_t(m.block->vtx.size()));
-            Note(st, "mine subset=", subset.size(), " extra=", nextra, " dt=", dt, " -> block txs=", m.block->vtx.size() - 1, " dropped=", m.dropped.size());
-        } else if (kind == 13) {
-            do_invalidate(s.range<int>(1, 3));
-        } else if (kind == 14) {
-            // competing longer branch: fork 1-3 below the tip; its first block re-mines some disconnected txs, conflicts and fresh txs
-            const int depth = s.range<int>(1, 3);
-            const bool sens = h.PoolHasSensitive(ms.LastSnap()) || sensitive_in_tip_blocks(depth);
-            std::vector<CTransactionRef> txs;
-            uint256 cur = ms.TipHash();
-            for (int i = 0; i < depth; ++i) {
-                const RefBlock& b = ms.sim().ledger.At(cur);
-                for (size_t k = 1; k < b.vtx.size(); ++k) if (s.chance(96)) txs.push_back(b.vtx[k]);
-                cur = b.prev;
-            }
-            std::reverse(txs.begin(), txs.end());
-            const unsigned nextra = s.range<unsigned>(0, 2);
-            for (unsigned i = 0; i < nextra; ++i) if (auto t = ms.GenBlockOnlyTx(s, s.chance(128))) txs.push_back(t);
-            const uint256 old_tip = ms.TipHash();
-            const int old_h = ms.TipHeight();
-            auto mined = ms.ForkAndOvertake(depth, txs, s.pick<int64_t>({0, 0, 700}));
-            bool all_ok = true;
-            for (const auto& m : mined) all_ok = all_ok && m.delivery.processed;
-            VCHECK(all_ok && !mined.empty() && mined.back().became_tip, "c22.harness-block-rejected", "model-valid competing branch did not become the active chain");
-            const int fork_h = old_h - disconnected(old_tip);
-            Note(st, "overtake depth=", old_h - fork_h, " first-block txs=", mined.front().block->vtx.size() - 1, " old tip ", old_tip.ToString().substr(0, 8));
-            if (old_h - fork_h > 0) { st.cls("overtake"); h.NoteReorg(old_h - fork_h, sens); } else st.cls("extend-tip");
-        } else if (kind == 15) {
-            const bool sens = h.PoolHasSensitive(ms.LastSnap());
-            const uint256 old_tip = ms.TipHash();
-            ms.ReconsiderAll();
-            const int d = disconnected(old_tip);
-            Note(st, "reconsider-all -> height ", ms.TipHeight(), " disconnected=", d);
-            st.cls("reconsider");
-            if (d > 0) h.NoteReorg(d, sens);
-        } else if (kind == 16) {
-            const int64_t dt = s.pick<int64_t>({30, 600, 1900, 3700, 7300, 50000});
-            ms.AdvanceTime(dt);
-            int n = -1;
-            if (s.boolean()) n = ms.Expire(s.pick<int64_t>({3600, 1800, 600, 100000}));
-            Note(st, "time +", dt, " expire removed=", n);
-            st.cls("time-jump");
-            if (n > 0) st.cls("expired-some");
-        } else if (kind == 17) {
-            const PoolSnap& snap = ms.LastSnap();
-            if (snap.entries.empty()) continue;
-            auto it = snap.entries.begin();
-            std::advance(it, s.index(snap.entries.size()));
-            const CAmount delta = s.pick<CAmount>({1000, -1000, 100000, -100000, 5000000, -5000000, 1});
-            ms.Prioritise(it->first, delta);
-            Note(st, "prioritise ", it->first.ToString().substr(0, 8), " ", delta);
-            st.cls("prioritise");
-        } else if (kind == 18) {
-            const size_t usage = ms.LastSnap().usage;
-            const size_t target = usage * s.range<size_t>(1, 4) / 4;
-            ms.TrimToSize(target);
-            Note(st, "trim to ", target, " of ", usage);
-            st.cls("trim");
-        } else {
-            // burst: a chain/cluster builder to reach the limits
-            const unsigned n = s.range<unsigned>(2, 6);
-            for (unsigned i = 0; i < n; ++i) { submit(ms.GenOfKind(s, s.chance(200) ? GenKind::CHAIN : GenKind::MERGE)); ms.Sync(); }
-            st.cls("burst");
-        }
-        h.CheckAll("after-op");
-    }
-    st.nontrivial = h.reorg_with_sensitive && accepted >= 2;
-    st.mix(uint64_t(h.reorgs));
-    st.mix(uint64_t(h.maxdepth));
-    if (h.max_pool >= 10) st.cls("pool>=10");
-    if (h.max_pool >= 25) st.cls("pool>=25");
-    Note(st, "submitted=", submitted, " accepted=", accepted, " reorgs=", h.reorgs, " maxdepth=", h.maxdepth, " max_pool=", h.max_pool, " checks=", h.checks);
+    Oracle oracle{ms, st};
+    HistoryHooks hooks;
+    hooks.prefix = "c22";
+    hooks.check = [&](const char* where) { oracle.CheckAll(where); };
+    MempoolHistory h(ms, s, st, hooks);
+    h.WarmUp(3);
+    h.Run(s.range<unsigned>(6, 48));
+    h.Finish();
+    st.nontrivial = h.reorg_with_sensitive && h.accepted >= 2;
+    Note(st, "checks=", oracle.checks);
 }
